@@ -183,6 +183,42 @@ Proof.
 Qed.
 
 (* ------------------------------------------------------------------------------------------ *)
+(* 4b. the main loop holds at most one chunk: what it has taken from the queue is forwarded, dropped, or the one
+       chunk in its hand (which becomes lastInputChunk); holds for the variant too                                *)
+
+Definition loops_inv (s : fstate) : Prop :=
+  match f_pc s with
+  | PRecv => f_loops s = length (f_out s) + length (f_bad s)
+  | PFast _ | PSelect _ => f_loops s = length (f_out s) + length (f_bad s) + 1
+  | _ => f_loops s <= length (f_out s) + length (f_bad s) + 1
+  end.
+
+Lemma loops_step : forall cfg s e s', loops_inv s -> f_step cfg s e = Some s' -> loops_inv s'.
+Proof.
+  intros cfg s e s' Hi H. unfold loops_inv in *.
+  destruct e; step_inv H; cbn in *;
+    repeat match goal with He : f_pc _ = _ |- _ => rewrite He in * end; cbn in *; try lia;
+    repeat match goal with
+           | |- context [match f_pc ?x with _ => _ end] => destruct (f_pc x)
+           | Hx : context [match f_pc ?x with _ => _ end] |- _ => destruct (f_pc x)
+           end; cbn in *; try lia.
+Qed.
+
+Lemma loops_run : forall cfg evs s s', loops_inv s -> f_run cfg s evs = Some s' -> loops_inv s'.
+Proof.
+  induction evs as [|e evs IH]; intros s s' Hi H; cbn in H.
+  - inversion H; subst; exact Hi.
+  - destruct (f_step cfg s e) as [s1|] eqn:E; [|discriminate]. eapply IH; [|exact H]. eapply loops_step; eauto.
+Qed.
+
+Lemma loop_holds_one_chunk_lemma : forall cfg evs s, f_run cfg f_init evs = Some s ->
+  f_loops s <= length (f_out s) + length (f_bad s) + 1.
+Proof.
+  intros cfg evs s Hr. assert (Hi : loops_inv f_init) by reflexivity.
+  pose proof (loops_run _ _ _ _ Hi Hr) as H. unfold loops_inv in H. destruct (f_pc s); lia.
+Qed.
+
+(* ------------------------------------------------------------------------------------------ *)
 (* 5. the variant with the non-blocking send first                                              *)
 
 Lemma run_app : forall cfg a b s, f_run cfg s (a ++ b) =
@@ -199,7 +235,7 @@ Proof.
   - rewrite app_nil_r. reflexivity.
   - cbn in Hle. cbn. destruct (fg_qcap cfg) as [|m'] eqn:Eq; [lia|].
     assert (E : Nat.leb (length l0) m' = true) by (apply PeanoNat.Nat.leb_le; lia). rewrite E.
-    change (FS PRecv (l0 ++ [c]) false [] false true [] None [] [] 0) with (with_queue (l0 ++ [c])).
+    change (FS PRecv (l0 ++ [c]) false [] false true [] None [] [] 0 0) with (with_queue (l0 ++ [c])).
     fold (accepts l). rewrite IH; [|rewrite app_length; cbn; lia]. rewrite <- app_assoc. reflexivity.
 Qed.
 
@@ -211,24 +247,24 @@ Lemma backlog_from_length : forall n i, length (backlog_from i n) = n.
 Proof. induction n as [|n IH]; intros i; cbn; [reflexivity|]. rewrite IH. reflexivity. Qed.
 
 (* the state after the stop request with l in the queue, [out] already forwarded and taken *)
-Definition stopped_with (l out : list fchunk) (m taken : nat) : fstate :=
-  FS PRecv l true [] false true out (Some m) [] [] taken.
+Definition stopped_with (l out : list fchunk) (m taken loops : nat) : fstate :=
+  FS PRecv l true [] false true out (Some m) [] [] taken loops.
 
-Lemma fast_forced : forall w q n i out m taken, 0 < w ->
+Lemma fast_forced : forall w q n i out m taken loops, 0 < w ->
   let cfg := FCFG w q true in
   exists out',
-    f_run_forced cfg (stopped_with (backlog_from i n) out m taken) (rep n pass_one)
-      = Some (stopped_with [] out' m (n + taken)) /\
+    f_run_forced cfg (stopped_with (backlog_from i n) out m taken loops) (rep n pass_one)
+      = Some (stopped_with [] out' m (n + taken) (n + loops)) /\
     length out' = n + length out /\
-    f_choices cfg (stopped_with (backlog_from i n) out m taken) (rep n pass_one) = 0.
+    f_choices cfg (stopped_with (backlog_from i n) out m taken loops) (rep n pass_one) = 0.
 Proof.
-  intros w q n. induction n as [|n IH]; intros i out m taken Hw cfg.
+  intros w q n. induction n as [|n IH]; intros i out m taken loops Hw cfg.
   - exists out. cbn. repeat split.
   - destruct w as [|w']; [lia|].
-    destruct (IH (i + 1)%Z (FC i true :: out) m (S taken) Hw) as (out' & Hr & Hl & Hc).
+    destruct (IH (i + 1)%Z (FC i true :: out) m (S taken) (S loops) Hw) as (out' & Hr & Hl & Hc).
     exists out'. cbn [backlog_from rep pass_one app].
     split; [|split].
-    + cbn. cbn in Hr. rewrite <- plus_n_Sm in Hr. exact Hr.
+    + cbn. cbn in Hr. rewrite <- !plus_n_Sm in Hr. exact Hr.
     + rewrite Hl. cbn. lia.
     + cbn. cbn in Hc. exact Hc.
 Qed.
@@ -244,8 +280,8 @@ Lemma fast_path_variant_refuted_lemma : forall n w q, 0 < w -> n <= q ->
                          enabled cfg s1 FSend = true /\ enabled cfg s1 FStop = false).
 Proof.
   intros n w q Hw Hn cfg.
-  destruct (fast_forced w q n 0%Z [] 0 0 Hw) as (out' & Hr & Hl & Hc).
-  exists (stopped_with (backlog n) [] 0 0), (stopped_with [] out' 0 (n + 0)).
+  destruct (fast_forced w q n 0%Z [] 0 0 0 Hw) as (out' & Hr & Hl & Hc).
+  exists (stopped_with (backlog n) [] 0 0 0), (stopped_with [] out' 0 (n + 0) (n + 0)).
   split; [|split; [|split; [|split; [|split; [|split]]]]].
   - rewrite run_app, run_accepts_lemma; [reflexivity|]. unfold backlog. rewrite backlog_from_length. exact Hn.
   - cbn. unfold backlog. apply backlog_from_length.
@@ -262,8 +298,8 @@ Qed.
 
 Lemma backlog_example_lemma :
   let cfg := FCFG 8 500 false in
-  replay_backlog cfg 40 5 3 = Some (3, 3, 8, 32, true) /\
+  replay_backlog cfg 40 5 3 = Some (3, 3, 8, 32, 9, true) /\
   (exists s, f_run cfg f_init (accepts (backlog 40) ++ rep 5 pass_one ++ [EDestroy] ++ rep 3 pass_one) = Some s /\
              f_closed s = true /\ fwd_after s = 3 /\ length (f_queue s) = 32) /\
-  replay_backlog (FCFG 8 500 true) 40 5 3 = Some (0, 3, 8, 0, false).
+  replay_backlog (FCFG 8 500 true) 40 5 3 = Some (0, 3, 8, 0, 9, false).
 Proof. vm_compute. repeat split. eexists. repeat split. Qed.
